@@ -116,6 +116,51 @@ fn gen_table(r: &mut Rng, size_classes: &[String]) -> (TableSpec, String) {
     (TableSpec { name: "t0".into(), cols, rows, cuts }, desc)
 }
 
+/// the PARALLEL partial-state stratum: an in-memory table cut into 5–12 batches whose aggregated column x0 is NULL in whole
+/// batches (start / end / middle / alternating), so that `aggregate_batches_parallel` (hash_agg.rs 1187: > 4 batches, one
+/// partial hash table per chunk of batches, `merge_accumulator_states`) meets partial states that saw no value at all
+fn gen_table_par(r: &mut Rng, huge: bool) -> (TableSpec, String) {
+    let kty = *r.pick(&[ColTy::I64, ColTy::Str, ColTy::Date]);
+    let jty = *r.pick(&[ColTy::I64, ColTy::Str]);
+    let xty = *r.pick(&[ColTy::I64, ColTy::I64, ColTy::Date, ColTy::F64, ColTy::Str]);
+    let knull = *r.pick(&[0u8, 0, 10, 50]);
+    let mk = |n: &str, cty, null_pct, unique| ColSpec { name: n.into(), cty, null_pct, boundary: false, special: false, unique };
+    let cols = vec![mk("id0", ColTy::I64, 0, true), mk("k0", kty, knull, false), mk("j0", jty, 10, false), mk("x0", xty, 50, false), mk("y0", ColTy::I64, 0, false)];
+    let k = if huge { 6 + r.below(4) as usize } else { 5 + r.below(8) as usize };          // number of batches
+    let per = if huge { 8400 + r.below(300) as usize } else { 2 + r.below(12) as usize };   // rows per batch
+    let n = k * per;
+    let pattern = *r.pick(&["start", "end", "middle", "alt", "one_live", "none"]);
+    let a = 1 + r.below((k - 1) as u64) as usize; // how many batches the pattern covers
+    let null_batch = |b: usize| -> bool { match pattern {
+        "start" => b < a, "end" => b >= k - a, "middle" => b >= (k - a) / 2 && b < (k - a) / 2 + a, "alt" => b % 2 == 0, "one_live" => b != a % k, _ => false } };
+    let kdom = *r.pick(&[2u64, 3, 4]); let xdom = *r.pick(&[3u64, 6, 8]);
+    let mut ids: Vec<i64> = (0..n as i64).collect(); r.shuffle(&mut ids);
+    let mut rows: Vec<Vec<Val>> = Vec::with_capacity(n);
+    for i in 0..n {
+        let b = i / per;
+        let kv = if r.below(100) < knull as u64 { Val::Null } else { small_value(r, kty, kdom) };
+        let jv = if r.below(100) < 10 { Val::Null } else { small_value(r, jty, 2) };
+        let xv = if null_batch(b) || r.below(100) < 15 { Val::Null } else { small_value(r, xty, xdom) };
+        rows.push(vec![Val::I(ids[i]), kv, jv, xv, small_value(r, ColTy::I64, 6)]);
+    }
+    let desc = format!("size:{} par:{} knull:{} xnull:batches kty:{} xty:{}", if huge { "huge" } else { "par" }, pattern, knull, kty.name(), xty.name());
+    (TableSpec { name: "t0".into(), cols, rows, cuts: vec![per; k] }, desc)
+}
+
+/// statements that HashAggregateExec cannot vectorize / stream: global aggregates, or GROUP BY carrying a DISTINCT aggregate
+fn gen_shape_par(r: &mut Rng, xty: ColTy) -> Shape {
+    let numeric = matches!(xty, ColTy::I64 | ColTy::I32 | ColTy::F64);
+    let mut pool: Vec<(AggFn, bool)> = vec![(AggFn::CountStar, false), (AggFn::Count, false), (AggFn::Min, false), (AggFn::Min, false), (AggFn::Max, false), (AggFn::Max, false)];
+    if numeric { pool.push((AggFn::Sum, false)); pool.push((AggFn::Avg, false)); }
+    let nkeys = *r.pick(&[0usize, 0, 0, 1, 1, 2]);
+    let mut aggs: Vec<(AggFn, bool)> = vec![];
+    if nkeys > 0 { aggs.push((AggFn::Count, true)); }
+    let na = 1 + r.below(3) as usize;
+    for _ in 0..na { let a = *r.pick(&pool); if !aggs.contains(&a) { aggs.push(a); } }
+    if nkeys == 0 && aggs.len() == 1 && r.chance(1, 2) { aggs.push((AggFn::CountStar, false)); aggs.dedup(); }
+    Shape { nkeys, aggs, distinct_select: false, where_kind: *r.pick(&["none", "none", "none", "x_notnull", "keq"]) }
+}
+
 fn gen_shape(r: &mut Rng, xty: ColTy, allow_distinct: bool) -> Shape {
     let kind = r.below(10);
     if kind == 0 { return Shape { nkeys: 1 + r.below(2) as usize, aggs: vec![], distinct_select: true, where_kind: *r.pick(&["none", "none", "k_null"]) }; }
@@ -176,6 +221,14 @@ fn sub_path(top: &str, t: &TableSpec, sh: &Shape, cfg: &ExecCfg, nrows_after_whe
         // AggregationState (perfect-hash / raw-key maps) even over memory tables
         if top.contains("Spillable") && sh.nkeys > 0 && !has_distinct && !sh.aggs.is_empty() && cfg.mem_limit.is_none() { return "morsel".into(); }
         let _ = nrows_after_where_unknown;
+        // HashAggregateExec::execute: > 4 collected batches (or > 50 000 rows) -> aggregate_batches_parallel; not vectorizable
+        // (global, or DISTINCT present) and >= 2 threads -> one partial hash table per chunk of batches, then merge
+        let threads = rayon::current_num_threads();
+        let vectorizable = sh.nkeys > 0 && !has_distinct;
+        if !vectorizable && cfg.mem_limit.is_none() && threads >= 2 && !(sh.nkeys == 0 && nb == 1 && sh.aggs.len() == 1 && !has_distinct) {
+            if nb > 4 && t.rows.len() <= 50_000 { return "parallel".into(); }
+            if t.rows.len() > 50_000 { return "parallel_split".into(); }
+        }
         if sh.nkeys == 0 && nb == 1 && sh.aggs.len() == 1 && !has_distinct { return "scalar".into(); }
         if sh.nkeys > 0 && !has_distinct && !sh.aggs.is_empty() { return if t.rows.len() > 100_000 { "morsel".into() } else { "vectorized".into() }; }
         return "hash".into();
@@ -186,12 +239,15 @@ fn sub_path(top: &str, t: &TableSpec, sh: &Shape, cfg: &ExecCfg, nrows_after_whe
 fn gen_case(r: &mut Rng, n: usize, o: &Opts) -> (Value, Value) {
     let sizes: Vec<String> = o.get("sizes").unwrap_or("tiny,small,small,small,mid").split(',').map(|s| s.to_string()).collect();
     let cfg_names: Vec<&str> = o.get("cfgs").unwrap_or("mem1,memb,memb,pq1x16,pq2x7,pq3x50,memb+lim200000").split(',').collect();
-    let (t, desc) = gen_table(r, &sizes);
+    // one case in five belongs to the parallel partial-state stratum (`--opt par=0` switches it off, `par=1` makes it the only one)
+    let par = match o.get_usize("par", 2) { 0 => false, 1 => true, _ => n % 5 == 3 };
+    let huge_par = par && sizes.iter().any(|s| s == "huge") && r.chance(1, 40);
+    let (t, desc) = if par { gen_table_par(r, huge_par) } else { gen_table(r, &sizes) };
     let allow_distinct = o.get_usize("distinct", 1) == 1;
-    let sh = gen_shape(r, t.cols[3].cty, allow_distinct);
+    let sh = if par { gen_shape_par(r, t.cols[3].cty) } else { gen_shape(r, t.cols[3].cty, allow_distinct) };
     // GROUP BY two keys over Parquet: the optimizer's GroupKeyReduction (unique key inferred from an ndv estimate) is C03's
     // finding, not an aggregation-path defect — take that rule out
-    let mut cfg_name = cfg_names[n % cfg_names.len()].to_string();
+    let mut cfg_name = if par { "memb".to_string() } else { cfg_names[n % cfg_names.len()].to_string() };
     if cfg_name.starts_with("pq") && sh.nkeys >= 2 { cfg_name += "+without:GroupKeyReduction"; }
     let cfg = ExecCfg::parse(&cfg_name).unwrap_or_else(ExecCfg::mem_batches);
     let qualified = r.chance(1, 6);
@@ -215,7 +271,8 @@ fn gen_case(r: &mut Rng, n: usize, o: &Opts) -> (Value, Value) {
     if t.rows.is_empty() { tags.push("empty_table".into()); }
     if qualified { tags.push("f:qualified".into()); }
     let mut case = make_case("C21", &cat, &q, &tags, false, &[cfg], false);
-    case["c21"] = json!({"path": path, "op": top, "ops": ops, "nkeys": sh.nkeys, "xty": t.cols[3].cty.name()});
+    case["c21"] = json!({"path": path, "op": top, "ops": ops, "nkeys": sh.nkeys, "xty": t.cols[3].cty.name(), "threads": rayon::current_num_threads()});
+    if par { case["tags"].as_array_mut().unwrap().push(json!("s2:par")); }
     // neutraliser of the NULL-grouping-key findings: the same statement over the table with every NULL key replaced by a
     // fresh non-NULL value must be answered correctly (DESIGN §3.4); run only when a key column holds a NULL
     let has_null_key = sh.nkeys > 0 && t.rows.iter().any(|r| r[1].is_null() || (sh.nkeys > 1 && r[2].is_null()));
